@@ -30,7 +30,9 @@ TACTIC = "vm_compute; reflexivity"
 
 # Two converged Newton solutions of the same step satisfy every row within the solver tolerance (1e-6, row units) but need not be
 # bit-identical when the iteration starts from different points; flows in pipes with almost no head loss are the worst conditioned.
-ABS_TOL = {"flowrate": 5e-6, "demand": 5e-6, "leak_demand": 5e-6, "velocity": 5e-4, "head": 2e-4, "pressure": 2e-4, "headloss": 2e-4}
+# (seen: a pipe with ~1e-6 m of head loss carrying 2e-14 in one run and 8.6e-6 m3/s in the other: q ~ (dh/k)^0.54 turns a head residual
+# of 1e-6 m into 1e-4 m3/s); heads are well conditioned and stay tight.
+ABS_TOL = {"flowrate": 2e-4, "demand": 2e-4, "leak_demand": 2e-4, "velocity": 5e-3, "head": 2e-4, "pressure": 2e-4, "headloss": 2e-4}
 
 
 def results_close(r1, r2, tol=1e-7):
